@@ -1,4 +1,4 @@
-import MesaModel.Proofs.LayersTyped
+import MesaModel.Proofs.LayersBulk
 import MesaModel.Gen.NumpyTables
 /-!
 # C11 — property layers and cell attributes are one value; selection is exact
@@ -139,67 +139,74 @@ theorem C11_read_after_write_persists {s s1 : State} (h : Reach s) {n : String} 
 
 /-! ## bulk operations are point-wise, also right after a re-pointing `modify_cells` -/
 
-/-- `set_cells(v, cond)` on an existing layer always succeeds; afterwards every entry of that layer is
-    `v` where the old entry satisfied the condition and the old entry elsewhere; every other layer is
-    untouched; the cell attributes show exactly these values. -/
+/-- `set_cells(v, cond)` on an existing layer succeeds unless it has a condition and the layer has no entries (a
+    free-standing layer with a zero dimension: `np.vectorize` refuses, `ValueError`, nothing changes); when it
+    succeeds every entry of that layer is `v` where the old entry satisfied the condition and the old entry
+    elsewhere; every other layer is untouched; the cell attributes show exactly these values. -/
 theorem C11_set_cells_pointwise {s s' : State} (h : Reach s) {l : Nat} (hl : l < s.nLayers) {v : Int}
-    {cond : Option (Int → Bool)} {o : Out} (hset : setCells s l v cond = (s', o)) :
-    o = .ok ∧
-    (∀ l' c, l' < s.nLayers → s'.value l' c =
-      if l' = l then (if condHolds cond (s.value l c) then v else s.value l c) else s.value l' c) ∧
-    (∀ n c, s.named? n = some l → inBounds s.dims c = true →
-      cellGet s' n c = .val (if condHolds cond (s.value l c) then v else s.value l c)) := by
-  have hw := h.wf
-  obtain ⟨ho, hs'⟩ := setCells_ok hl hset
-  have hw' : WF s' := hw.of_sameShape (by rw [hs']; exact ⟨rfl, rfl, rfl, rfl, rfl, rfl, rfl, rfl, rfl⟩)
-  have e3 : ∀ n, s'.named? n = s.named? n := by intro n; rw [hs']; rfl
-  have e4 : s'.dims = s.dims := by rw [hs']
-  have hv : ∀ l' c, l' < s.nLayers → s'.value l' c =
-      if l' = l then (if condHolds cond (s.value l c) then v else s.value l c) else s.value l' c := by
-    intro l' c hl'; rw [hs']; exact value_upd hw hl hl' _ c
-  refine ⟨ho, hv, fun n c hn hc => ?_⟩
-  rw [cellGet_eq_value hw' (by rw [e3]; exact hn) (by rw [e4]; exact hc), hv l c hl]
-  simp
+    {cond : Option (Int → Bool)} {o : Out} (hset : step s (.setCells l (.raw v) cond) = (s', o)) :
+    (o = .ok ↔ ¬ (cond.isSome = true ∧ 0 ∈ (s.layers l).dims)) ∧
+    (o ≠ .ok → o = .err (.value .size0) ∧ s' = s) ∧
+    (o = .ok →
+      (∀ l' c, l' < s.nLayers → s'.value l' c =
+        if l' = l then (if condHolds cond (s.value l c) then v else s.value l c) else s.value l' c) ∧
+      (∀ n c, s.named? n = some l → inBounds s.dims c = true →
+        cellGet s' n c = .val (if condHolds cond (s.value l c) then v else s.value l c))) := by
+  simp only [step] at hset
+  rw [vecGuard_eq hl] at hset
+  split at hset
+  · next hg =>
+    simp only [Prod.mk.injEq] at hset
+    obtain ⟨rfl, rfl⟩ := hset
+    exact ⟨by simp [hg], fun _ => ⟨rfl, rfl⟩, fun e => by simp at e⟩
+  · next hg =>
+    obtain ⟨ho, hv, hc⟩ := setCells_pointwise h hl hset
+    exact ⟨by simp only [ho, true_iff]; exact hg, fun hne => absurd ho hne, fun _ => ⟨hv, hc⟩⟩
 
-/-- `modify_cells(f, cond)` (a Python function or a ufunc with its operand) on an existing layer
-    succeeds; the layer now points to a *new* array, and still: every entry is `f old` where the old
-    entry satisfied the condition and `old` elsewhere, other layers are untouched, and the cell
+/-- `modify_cells(f, cond)` (`vec`: a Python function, else a ufunc with its operand) on an existing layer succeeds
+    unless `np.vectorize` is needed — for a condition or a Python function — and the layer has no entries
+    (`ValueError`, nothing changes); when it succeeds the layer points to a *new* array, and still: every entry is
+    `f old` where the old entry satisfied the condition and `old` elsewhere, other layers are untouched, and the cell
     attributes — which go through the layer object — show exactly the new values. -/
-theorem C11_modify_cells_pointwise {s s' : State} (h : Reach s) {l : Nat} (hl : l < s.nLayers)
+theorem C11_modify_cells_pointwise {s s' : State} (h : Reach s) {l : Nat} (hl : l < s.nLayers) {vec : Bool}
     {f : Int → Int} {cond : Option (Int → Bool)} {o : Out}
-    (hmod : modifyCells s l (some f) cond = (s', o)) :
-    o = .ok ∧ (s'.layers l).data ≠ (s.layers l).data ∧
-    (∀ l' c, l' < s.nLayers → s'.value l' c =
-      if l' = l then (if condHolds cond (s.value l c) then f (s.value l c) else s.value l c)
-      else s.value l' c) ∧
-    (∀ n c, s.named? n = some l → inBounds s.dims c = true →
-      cellGet s' n c = .val (if condHolds cond (s.value l c) then f (s.value l c) else s.value l c)) := by
-  have hw := h.wf
-  have hw' : WF s' := by
-    have := WF_modifyCells hw l (some f) cond
-    rwa [hmod] at this
-  obtain ⟨ho, hs'⟩ := modifyCells_ok hl hmod
-  have hlt := hw.data_lt l hl
-  have e3 : ∀ n, s'.named? n = s.named? n := by intro n; rw [hs']; rfl
-  have e4 : s'.dims = s.dims := by rw [hs']
-  have hv : ∀ l' c, l' < s.nLayers → s'.value l' c =
-      if l' = l then (if condHolds cond (s.value l c) then f (s.value l c) else s.value l c)
-      else s.value l' c := by
-    intro l' c hl'
-    rw [hs']
-    unfold State.value
-    simp only [upd]
-    by_cases e : l' = l
-    · subst e; simp
-    · have := hw.data_lt l' hl'
-      simp only [e, if_false]
-      rw [if_neg (by omega)]
-  refine ⟨ho, ?_, hv, fun n c hn hc => ?_⟩
-  · rw [hs']; simp only [upd_same]; omega
-  · rw [cellGet_eq_value hw' (by rw [e3]; exact hn) (by rw [e4]; exact hc), hv l c hl]
-    simp
+    (hmod : step s (.modifyCells l vec (some f) cond) = (s', o)) :
+    (o = .ok ↔ ¬ ((cond.isSome || vec) = true ∧ 0 ∈ (s.layers l).dims)) ∧
+    (o ≠ .ok → o = .err (.value .size0) ∧ s' = s) ∧
+    (o = .ok →
+      (s'.layers l).data ≠ (s.layers l).data ∧
+      (∀ l' c, l' < s.nLayers → s'.value l' c =
+        if l' = l then (if condHolds cond (s.value l c) then f (s.value l c) else s.value l c)
+        else s.value l' c) ∧
+      (∀ n c, s.named? n = some l → inBounds s.dims c = true →
+        cellGet s' n c = .val (if condHolds cond (s.value l c) then f (s.value l c) else s.value l c))) := by
+  simp only [step] at hmod
+  rw [vecGuard_eq hl] at hmod
+  split at hmod
+  · next hg =>
+    simp only [Prod.mk.injEq] at hmod
+    obtain ⟨rfl, rfl⟩ := hmod
+    exact ⟨by simp only [reduceCtorEq, false_iff]; exact fun hx => hx hg, fun _ => ⟨rfl, rfl⟩, fun e => by simp at e⟩
+  · next hg =>
+    obtain ⟨ho, hne, hv, hc⟩ := modifyCells_pointwise h hl hmod
+    exact ⟨by simp only [ho, true_iff]; exact hg, fun hx => absurd ho hx, fun _ => ⟨hne, hv, hc⟩⟩
 
-/-- In place versus re-pointing: a reference to `layer.data` taken before `set_cells` sees the new
+/-- On a grid that has cells, every *attached* layer has entries (it has the grid's shape), so on the layers the
+    cell attributes speak about the `np.vectorize` guard never fires: `set_cells` / `modify_cells` are refused only
+    for their own reasons (a cast numpy refuses, a ufunc without operand). -/
+theorem C11_attached_layers_have_entries {s : State} (h : Reach s) (hd : 0 ∉ s.dims) {n : String} {l : Nat}
+    (hn : s.named? n = some l) :
+    s.noEntries l = false ∧ ∀ b k, vecGuard s l b k = k := by
+  have hw := h.wf
+  have hl := hw.att_lt n l hn
+  have h0 : 0 ∉ (s.layers l).dims := by rw [hw.att_dims n l hn]; exact hd
+  refine ⟨?_, fun b k => ?_⟩
+  · cases hx : s.noEntries l with
+    | false => rfl
+    | true => exact absurd ((noEntries_iff hl).mp hx) h0
+  · rw [vecGuard_eq hl, if_neg (fun hh => h0 hh.2)]
+
+/-- In place versus re-pointing (`setCells` / `modifyCells`: the calls past the `np.vectorize` guard): a reference to `layer.data` taken before `set_cells` sees the new
     values (it is the same array); taken before `modify_cells` it keeps the old values (the layer got a
     new array) — while layer and cell attributes agree on the new values in both cases (theorems above). -/
 theorem C11_set_in_place_modify_repoints {s s' : State} (h : Reach s) {l : Nat} (hl : l < s.nLayers)
@@ -322,12 +329,15 @@ theorem C11_typed_layer_write_one_value {s s' : State} (h : Reach s) {l : Nat} {
   rw [hset] at this
   exact dtypeOf_sameShape this l
 
-/-- `set_cells(x, cond)` with a Python scalar: numpy (`np.copyto`, `same_kind`) refuses exactly the casts
+/-- `set_cells(x, cond)` with a Python scalar: a condition on a layer without entries is refused first (`np.vectorize`,
+    `ValueError`); otherwise numpy (`np.copyto`, `same_kind`) refuses exactly the casts
     that could lose something — a float into an int or bool layer, an int into a bool layer — and then
     nothing is written; every other value enters *exactly* (no truncation, unlike a single-cell write), at
     the cells whose old value satisfies the condition. -/
 theorem C11_set_cells_typed {s : State} (h : Reach s) {l : Nat} (hl : l < s.nLayers) (x : Val) (hx : x.ok)
     (cond : Option (Int → Bool)) :
+    (cond.isSome = true ∧ 0 ∈ (s.layers l).dims → step s (.setCells l (.py x) cond) = (s, .err (.value .size0))) ∧
+    (¬ (cond.isSome = true ∧ 0 ∈ (s.layers l).dims) →
     (sameKind x.ty (s.dtypeOf l) = false → step s (.setCells l (.py x) cond) = (s, .err .type)) ∧
     (sameKind x.ty (s.dtypeOf l) = true → ∃ s', step s (.setCells l (.py x) cond) = (s', .ok) ∧
       quarters (s.dtypeOf l) (castTo (s.dtypeOf l) x) = quarters x.ty x.raw ∧
@@ -335,36 +345,49 @@ theorem C11_set_cells_typed {s : State} (h : Reach s) {l : Nat} (hl : l < s.nLay
         if l' = l then (if condHolds cond (s.value l c) then castTo (s.dtypeOf l) x else s.value l c)
         else s.value l' c) ∧
       (∀ n c, s.named? n = some l → inBounds s.dims c = true →
-        cellGet s' n c = .val (if condHolds cond (s.value l c) then castTo (s.dtypeOf l) x else s.value l c))) := by
-  simp only [step, setCellsV_eq hl]
+        cellGet s' n c = .val (if condHolds cond (s.value l c) then castTo (s.dtypeOf l) x else s.value l c)))) := by
+  simp only [step, vecGuard_eq hl]
+  refine ⟨fun hg => by rw [if_pos hg], fun hg => ?_⟩
+  rw [if_neg hg]
+  simp only [setCellsV_eq hl]
   refine ⟨fun hk => by simp [hk], fun hk => ?_⟩
   simp only [hk, if_true]
-  obtain ⟨ho, hv, hcell⟩ := C11_set_cells_pointwise h hl (v := castTo (s.dtypeOf l) x) (cond := cond) rfl
+  obtain ⟨ho, hv, hcell⟩ := setCells_pointwise h hl (v := castTo (s.dtypeOf l) x) (cond := cond) rfl
   refine ⟨(setCells s l (castTo (s.dtypeOf l) x) cond).1, ?_, quarters_castTo_sameKind hx hk, hv, hcell⟩
   exact Prod.ext rfl ho
 
 /-- `set_cells(arr, cond)` with an *array* value of the layer's shape (`layer.data = arr`,
-    `grid.set_property(name, arr, cond)`): refused — nothing written — iff the array's dtype is not
+    `grid.set_property(name, arr, cond)`): a condition on a layer without entries is refused first (`np.vectorize`);
+    otherwise refused — nothing written — iff the array's dtype is not
     `same_kind`-castable; otherwise point-wise and positional: the entry at `c` becomes the number `arr[c]`
     (not the next unused entry of `arr`) where the *old* entry at `c` satisfied the condition and stays
     elsewhere; other layers untouched; the cell attributes show exactly these values. -/
 theorem C11_set_cells_array_pointwise {s : State} (h : Reach s) {l : Nat} (hl : l < s.nLayers) {hd a : Nat}
     {dims : List Nat} (hh : s.handles.lookup hd = some (a, dims)) (hdims : dims = (s.layers l).dims)
     (cond : Option (Int → Bool)) :
+    (cond.isSome = true ∧ 0 ∈ (s.layers l).dims → setFrom s l hd cond = (s, .err (.value .size0))) ∧
+    (¬ (cond.isSome = true ∧ 0 ∈ (s.layers l).dims) →
     (sameKind (s.adt a) (s.dtypeOf l) = false → setFrom s l hd cond = (s, .err .type)) ∧
     (sameKind (s.adt a) (s.dtypeOf l) = true → ∃ s', setFrom s l hd cond = (s', .ok) ∧
       (∀ l' c, l' < s.nLayers → s'.value l' c =
         if l' = l then (if condHolds cond (s.value l c) then recode (s.adt a) (s.dtypeOf l) (s.heap a c) else s.value l c)
         else s.value l' c) ∧
       (∀ c, quarters (s.dtypeOf l) (recode (s.adt a) (s.dtypeOf l) (s.heap a c)) = quarters (s.adt a) (s.heap a c)) ∧
-      (∀ n c, s.named? n = some l → inBounds s.dims c = true → cellGet s' n c = .val (s'.value l c))) := by
+      (∀ n c, s.named? n = some l → inBounds s.dims c = true → cellGet s' n c = .val (s'.value l c)))) := by
   have hw := h.wf
+  have hz : ((cells (s.layers l).dims).isEmpty = true) ↔ 0 ∈ (s.layers l).dims := by
+    rw [List.isEmpty_iff, cells_eq_nil_iff]
+  refine ⟨fun hg => ?_, fun hg => ?_⟩
+  · unfold setFrom State.layer?
+    simp only [hl, if_true, hh, hdims, ne_eq, not_true_eq_false, if_false]
+    rw [if_pos (by simp only [Bool.and_eq_true]; exact ⟨hg.1, hz.mpr hg.2⟩)]
   have hsf : setFrom s l hd cond = (if sameKind (s.adt a) (s.dtypeOf l) then
       ({ s with heap := upd s.heap (s.layers l).data (fun c =>
           if condHolds cond (s.heap (s.layers l).data c) then recode (s.adt a) (s.dtypeOf l) (s.heap a c)
           else s.heap (s.layers l).data c) }, .ok) else (s, .err .type)) := by
     unfold setFrom State.layer? State.dtypeOf
     simp only [hl, if_true, hh, hdims, ne_eq, not_true_eq_false, if_false]
+    rw [if_neg (by simp only [Bool.and_eq_true]; exact fun hx => hg ⟨hx.1, hz.mp hx.2⟩)]
     cases sameKind (s.adt a) (s.adt (s.layers l).data) <;> simp
   refine ⟨fun hk => by rw [hsf, hk]; rfl, fun hk => ?_⟩
   rw [hsf, hk]
@@ -378,7 +401,8 @@ theorem C11_set_cells_array_pointwise {s : State} (h : Reach s) {l : Nat} (hl : 
       hw.of_sameShape ⟨rfl, rfl, rfl, rfl, rfl, rfl, rfl, rfl, rfl⟩
     exact cellGet_eq_value hw' hn hc
 
-/-- `modify_cells` whose operation yields entries of type `rd`: the layer is re-pointed to an array of the
+/-- `modify_cells` whose operation yields entries of type `rd` (`modifyCellsT`: the call past the `np.vectorize`
+    guard, see `C11_modify_ufunc_typed`): the layer is re-pointed to an array of the
     *promoted* dtype; every entry stands for `f old` where the old entry satisfied the condition and for the
     *same number as before* elsewhere (promotion loses nothing); other layers keep values and dtypes; the
     cell attributes read the new array. -/
@@ -424,24 +448,31 @@ theorem C11_ufunc_result_types (d t : DType) :
     (d.join t).rank = max d.rank t.rank := by
   cases d <;> cases t <;> decide
 
-/-- `modify_cells(ufunc, x, cond)` with a typed operand: refused (state unchanged) exactly when numpy has no
-    such operation; otherwise it is the promoting `modify_cells` with numpy's result type, and for
+/-- `modify_cells(ufunc, x, cond)` with a typed operand (`vec`: the same operator in a Python function): on a layer
+    without entries a condition or a Python function is refused first (`np.vectorize`); otherwise it is refused
+    (state unchanged) exactly when numpy has no such operation; otherwise it is the promoting `modify_cells` with numpy's result type, and for
     `+`, `-`, maximum, minimum into a non-bool result the new entry *is* the sum / difference / larger /
     smaller of the two numbers. -/
-theorem C11_modify_ufunc_typed {s : State} {l : Nat} (hl : l < s.nLayers) (op : UOp) (x : Val) (hx : x.ok)
+theorem C11_modify_ufunc_typed {s : State} {l : Nat} (hl : l < s.nLayers) (vec : Bool) (op : UOp) (x : Val) (hx : x.ok)
     (cond : Option (Int → Bool)) :
-    (op.result (s.dtypeOf l) x.ty = none → step s (.modifyU l op x cond) = (s, .err .type)) ∧
+    ((cond.isSome || vec) = true ∧ 0 ∈ (s.layers l).dims →
+      step s (.modifyU l vec op x cond) = (s, .err (.value .size0))) ∧
+    (¬ ((cond.isSome || vec) = true ∧ 0 ∈ (s.layers l).dims) →
+    (op.result (s.dtypeOf l) x.ty = none → step s (.modifyU l vec op x cond) = (s, .err .type)) ∧
     (∀ rd, op.result (s.dtypeOf l) x.ty = some rd →
-      step s (.modifyU l op x cond) = modifyCellsT s l (some (op.apply (s.dtypeOf l) x)) cond rd ∧
+      step s (.modifyU l vec op x cond) = modifyCellsT s l (some (op.apply (s.dtypeOf l) x)) cond rd ∧
       (rd ≠ .bool → ∀ v,
         (op = .add → quarters rd (op.apply (s.dtypeOf l) x v) = quarters (s.dtypeOf l) v + quarters x.ty x.raw) ∧
         (op = .sub → quarters rd (op.apply (s.dtypeOf l) x v) = quarters (s.dtypeOf l) v - quarters x.ty x.raw) ∧
         (op = .max → quarters rd (op.apply (s.dtypeOf l) x v) = max (quarters (s.dtypeOf l) v) (quarters x.ty x.raw)) ∧
-        (op = .min → quarters rd (op.apply (s.dtypeOf l) x v) = min (quarters (s.dtypeOf l) v) (quarters x.ty x.raw)))) := by
-  have hstep : step s (.modifyU l op x cond) = (match op.result (s.dtypeOf l) x.ty with
+        (op = .min → quarters rd (op.apply (s.dtypeOf l) x v) = min (quarters (s.dtypeOf l) v) (quarters x.ty x.raw))))) := by
+  refine ⟨fun hg => by simp only [step]; rw [vecGuard_eq hl, if_pos hg], fun hg => ?_⟩
+  have hstep : step s (.modifyU l vec op x cond) = (match op.result (s.dtypeOf l) x.ty with
       | none => (s, .err .type)
       | some rd => modifyCellsT s l (some (op.apply (s.dtypeOf l) x)) cond rd) := by
-    simp only [step, modifyU, State.layer?, hl, if_true, State.dtypeOf] <;> rfl
+    simp only [step]
+    rw [vecGuard_eq hl, if_neg hg]
+    simp only [modifyU, State.layer?, hl, if_true, State.dtypeOf] <;> rfl
   refine ⟨fun hn => by rw [hstep, hn], fun rd hr => ⟨by rw [hstep, hr], fun hnb v => ?_⟩⟩
   obtain ⟨ty, raw⟩ := x
   generalize s.dtypeOf l = d at hr ⊢
@@ -1094,9 +1125,11 @@ theorem C11_shared_layer_second_grid {s : State} (h : Reach s) {l : Nat} {c : Co
           · simp at hok
           · split at hok
             · simp at hok
-            · next hb =>
-              simp only [Except.ok.injEq] at hok
-              exact ⟨hlt, hok.symm, by simpa using hb⟩
+            · split at hok
+              · simp at hok
+              · next hb =>
+                simp only [Except.ok.injEq] at hok
+                exact ⟨hlt, hok.symm, by simpa using hb⟩
   obtain ⟨hl, rfl, hc⟩ := hchk
   have hget : cellGet2 s l c = layerGet s l c := by
     rw [layerGet_eq_value hl hc]
@@ -1214,8 +1247,8 @@ theorem C11_select_within_saved_mask {s s' : State} {k : Nat} {m : Coord → Boo
 private def demo : State :=
   (run (init .new [2, 3] 1)
     [.create "a" .int 0, .layerSet 1 [1, 2] 5, .layerSet 1 [0, 0] 5, .place 7 [0, 1],
-     .modifyCells 1 (some (· + 1)) (some (fun x => decide (x > 3))), .grab 0 1,
-     .modifyCells 1 (some (· * 2)) none]).1
+     .modifyCells 1 true (some (· + 1)) (some (fun x => decide (x > 3))), .grab 0 1,
+     .modifyCells 1 true (some (· * 2)) none]).1
 
 example : Reach demo := reach_run (Reach.init ..) _
 example : demo.named? "a" = some 1 ∧ inBounds demo.dims [1, 2] = true := by decide
@@ -1229,7 +1262,7 @@ example : selectCells demo ⟨[], true, [], [("a", some false)]⟩
 /-- a history that never writes layer 1 (`noWrite`) although it creates and re-points another layer,
     detaches and re-attaches layer 1 and moves an agent: the value written before it is still read -/
 example : noWrite 1 (run (init .new [2, 2] 0) [.create "a" .int 0, .cellSet "a" [0, 1] 7]).1
-    [.create "b" .int 1, .modifyCells 2 (some (· + 1)) none, .detach "a", .place 0 [0, 1], .attach 1] := by
+    [.create "b" .int 1, .modifyCells 2 true (some (· + 1)) none, .detach "a", .place 0 [0, 1], .attach 1] := by
   refine ⟨?_, ?_, ?_, ?_, ?_, trivial⟩
   · simp [Op.mayWrite]
   · simp [Op.mayWrite]
@@ -1237,7 +1270,7 @@ example : noWrite 1 (run (init .new [2, 2] 0) [.create "a" .int 0, .cellSet "a" 
   · simp only [Op.mayWrite, not_and]; intro _; decide
   · simp [Op.mayWrite]
 example : cellGet (run (init .new [2, 2] 0) [.create "a" .int 0, .cellSet "a" [0, 1] 7,
-    .create "b" .int 1, .modifyCells 2 (some (· + 1)) none, .detach "a", .place 0 [0, 1], .attach 1]).1 "a" [0, 1]
+    .create "b" .int 1, .modifyCells 2 true (some (· + 1)) none, .detach "a", .place 0 [0, 1], .attach 1]).1 "a" [0, 1]
     = .val 7 := by decide
 /-- legacy MultiGrid with two agents in one cell: the mask turns true only when the last one leaves -/
 example : ((run (init .multi [2, 2] 0) [.place 0 [0, 1], .place 1 [0, 1], .remove 0, .empties, .remove 1, .empties]).2.drop 3)
@@ -1257,7 +1290,7 @@ example : (run (init .new [2, 2] 0)
     [.create "a" .int 3, .cellSet "a" [0, 0] (.py ⟨.float, 11⟩), .layerGet 1 [0, 0],
      .cellSet "a" [0, 1] (.py ⟨.float, -11⟩), .cellGet "a" [0, 1],
      .setCells 1 (.py ⟨.float, 8⟩) none, .dtype 1,
-     .modifyU 1 .add ⟨.float, 2⟩ (some fun x => x == 3), .dtype 1, .dump 1,
+     .modifyU 1 false .add ⟨.float, 2⟩ (some fun x => x == 3), .dtype 1, .dump 1,
      .cellSet "a" [0, 0] (.py ⟨.float, 11⟩), .layerGet 1 [0, 0]]).2 =
     [.id 1, .ok, .val 2, .ok, .val (-2), .err .type, .dt .int, .ok, .dt .float, .arr [8, -8, 14, 14],
      .ok, .val 11] := by decide
@@ -1265,15 +1298,15 @@ example : (run (init .new [2, 2] 0)
     is not; numpy has no `bool - bool`; `bool + int` makes it an int layer -/
 example : (run (init .single [1, 2] 0)
     [.create "b" .bool 0, .cellSet "b" [0, 1] (.py ⟨.float, -2⟩), .dump 0, .setCells 0 (.py ⟨.int, 1⟩) none,
-     .setCells 0 (.py ⟨.bool, 1⟩) (some fun x => x == 0), .modifyU 0 .sub ⟨.bool, 1⟩ none,
-     .modifyU 0 .add ⟨.int, 2⟩ none, .dtype 0, .dump 0]).2 =
+     .setCells 0 (.py ⟨.bool, 1⟩) (some fun x => x == 0), .modifyU 0 false .sub ⟨.bool, 1⟩ none,
+     .modifyU 0 false .add ⟨.int, 2⟩ none, .dtype 0, .dump 0]).2 =
     [.id 0, .ok, .arr [0, 1], .err .type, .ok, .err .type, .ok, .dt .int, .arr [3, 3]] := by decide
 example : (⟨.float, -11⟩ : Val).ok ∧ (⟨.bool, 1⟩ : Val).ok ∧ sameKind .bool .int = true ∧ sameKind .float .int = false := by
   simp [Val.ok, sameKind, DType.rank]
 /-- a history that never re-types layer 1 although it writes floats into it, re-points another layer to a
     wider dtype and re-points layer 1 itself without changing its type -/
-example : noRetype 1 [.cellSet "a" [0, 0] (.py ⟨.float, 11⟩), .modifyU 2 .add ⟨.float, 2⟩ none,
-    .modifyCells 1 (some (· + 1)) none, .setCells 1 (.py ⟨.bool, 1⟩) none] := by
+example : noRetype 1 [.cellSet "a" [0, 0] (.py ⟨.float, 11⟩), .modifyU 2 false .add ⟨.float, 2⟩ none,
+    .modifyCells 1 true (some (· + 1)) none, .setCells 1 (.py ⟨.bool, 1⟩) none] := by
   intro op hop
   simp only [List.mem_cons, List.mem_nil_iff, or_false] at hop
   rcases hop with rfl | rfl | rfl | rfl <;> simp [Op.mayRetype]
@@ -1286,7 +1319,7 @@ example : (run (init .new [1, 2] 0)
 /-- legacy `modify_cell(pos, np.add, 0.5)` on an int layer keeps the integer part; `modify_cells` promotes -/
 example : (run (init .multi [1, 2] 0)
     [.create "a" .int 3, .modifyCellU 0 [0, 0] .add ⟨.float, 2⟩, .dump 0, .dtype 0,
-     .modifyU 0 .add ⟨.float, 2⟩ none, .dump 0, .dtype 0]).2 =
+     .modifyU 0 false .add ⟨.float, 2⟩ none, .dump 0, .dtype 0]).2 =
     [.id 0, .ok, .arr [3, 3], .dt .int, .ok, .arr [14, 14], .dt .float] := by decide
 
 /-- a von Neumann torus 3×3: the radius-1 neighbourhood of the corner wraps round; selecting the highest `a`
@@ -1325,6 +1358,22 @@ example : (run (init .new [1, 3] 0)
     [.create "a" .int 2, .layerSet 1 [0, 1] 5, .layerSelect 1 (fun x => decide (x > 2)), .aggregate 1 .sum,
      .aggregate 1 .max, .aggregate 1 .min, .newLayer "z" [0, 2] .int 0, .aggregate 2 .sum, .aggregate 2 .max]).2.drop 2 =
     [.sel [[0, 1]] [false, true, false], .val 9, .val 5, .val 2, .id 2, .val 0, .err (.value .empty)] := by decide
+
+/-- a free-standing layer without entries (new implementation): `np.vectorize` refuses a Python function and a condition
+    (`ValueError`, nothing changes), a ufunc with its operand and an unconditional `set_cells` go through — the ufunc
+    still re-types the layer — and no grid can take the layer (a second grid of its shape cannot even be built) -/
+example : (run (init .new [1, 1] 0)
+    [.newLayer "z" [0, 2] .int 0, .modifyCells 1 true (some (· + 1)) none,
+     .setCells 1 (.raw 1) (some fun x => decide (x > 0)), .modifyCells 1 false (some (· + 1)) none, .setCells 1 (.raw 1) none,
+     .modifyCells 1 false none (some fun x => decide (x > 0)), .modifyCells 1 false none none,
+     .modifyU 1 true .add ⟨.float, 2⟩ none, .modifyU 1 false .add ⟨.float, 2⟩ none, .dtype 1,
+     .grab 0 1, .setFrom 1 0 (some fun x => x == 0), .setFrom 1 0 none,
+     .cellGet2 1 [0, 0], .attach 1, .layerSelect 1 (fun x => x == 0), .dump 1]).2 =
+    [.id 1, .err (.value .size0), .err (.value .size0), .ok, .ok, .err (.value .size0), .err (.value .ufunc),
+     .err (.value .size0), .ok, .dt .float, .ok, .err (.value .size0), .ok,
+     .err (.value .dims), .err (.value .dims), .sel [] [], .arr []] := by decide
+/-- the guard theorems are not vacuous either way: the layer above has a zero dimension, an attached one has not -/
+example : (0 : Nat) ∈ [0, 2] ∧ (0 : Nat) ∉ (init .new [2, 3] 1).dims := by decide
 
 /-- the code's own caveat, on a reachable state: an attribute given to the grid *before* the layer exists is not
     protected — `grid.a` then reads the user's object, while cell attribute and layer still are one value;
